@@ -25,7 +25,7 @@ RULE = ('histories of Index calls (assignment, lookup, get, deletion, pop, popit
         'runs; distinct_nontrivial = distinct (operation, outcome class, key class) cells + distinct schedules with a '
         'preemption inside an operation')
 DISTINCT = ('cells', 'schedules')
-REQUIRED = ('long_indexes', 'histories_with_a_key_and_its_stored_form_as_bytes', 'calls_judged', 'file_backed_values', 'reopen_events', 'pickle_events', 'fanout_indexes', 'django_indexes',
+REQUIRED = ('schedules_on_a_flat_disk_layout', 'long_indexes', 'histories_with_a_key_and_its_stored_form_as_bytes', 'calls_judged', 'file_backed_values', 'reopen_events', 'pickle_events', 'fanout_indexes', 'django_indexes',
             'presence_schedules', 'presence_lookups', 'atomicity_schedules', 'free_runs', 'exceptions_matched',
             'lookups_overlapping_replacement', 'replacements_run_in_front_of_a_file_open',
             'updates_from_failing_iterables', 'blocks_left_by_KeyboardInterrupt', 'blocks_left_by_GeneratorExit',
@@ -453,30 +453,56 @@ def od_step(state, o):
     raise ValueError(op)
 
 
+_FLAT = {}
+
+
+def flat_disk(dc):
+    """Disk subclass that keeps every value file in one sub-directory."""
+    if id(dc) not in _FLAT:
+        import codecs
+
+        class FlatDisk(dc.Disk):
+            def filename(self, key=None, value=None):
+                name = codecs.encode(os.urandom(12), 'hex').decode('utf-8') + '.val'
+                filename = os.path.join('values', name)
+                return filename, os.path.join(self._directory, filename)
+        _FLAT[id(dc)] = FlatDisk
+    return _FLAT[id(dc)]
+
+
 def atomicity_schedule(dc, sc, res, rng, label):
     d = sc.new()
     clock = probe.set_clock(probe.VClock())
     shared = rng.random() < 0.5
-    base = dc.Cache(d, timeout=0, disk_min_file_size=T, eviction_policy='none')
+    # a Disk subclass may lay the value files out differently (the documented filename() hook): with all files in one
+    # sub-directory, one client's clean-up of an emptied directory meets another client's write into it
+    flat = rng.random() < 0.3
+    disk_kw = {'disk': flat_disk(dc)} if flat else {}
+    if flat:
+        res.count('schedules_on_a_flat_disk_layout')
+    base = dc.Cache(d, timeout=0, disk_min_file_size=T, eviction_policy='none', **disk_kw)
     base_ix = dc.Index.fromcache(base)
     init = collections.OrderedDict()
-    for k in ['a', 'b', 'c'][:rng.randrange(0, 4)]:
-        init[k] = ('i%s;' % k) * (30 if rng.random() < 0.5 else 1)
+    for k in ['a', 'b', 'c'][:rng.randrange(0, 4) if not flat else 1]:
+        init[k] = ('i%s;' % k) * (30 if flat or rng.random() < 0.5 else 1)     # (flat: the one file of the directory)
         base_ix[k] = init[k]
     n = rng.randrange(2, 4)
     # clients with their own Index open it (and sometimes open a new one between two calls, or take an unpickled copy)
     # inside the schedule, while the others are writing
     late = (not shared) and rng.random() < 0.6
-    objs = [base_ix if shared else None if late else dc.Index.fromcache(dc.Cache(d, timeout=0)) for _ in range(n)]
+    objs = [base_ix if shared else None if late else dc.Index.fromcache(dc.Cache(d, timeout=0, **disk_kw)) for _ in range(n)]
     opened = []
 
     def open_index(how):
-        ix = dc.Index.fromcache(dc.Cache(d, timeout=0))
+        ix = dc.Index.fromcache(dc.Cache(d, timeout=0, **disk_kw))
         opened.append(ix)
         res.count('indexes_opened_inside_schedules')
         return ix
     sch = Sched(rng, clock, strategy=rng.choice(['random', 'preempt', 'random', 'ops']),
                 preempt_points={rng.randrange(0, 150) for _ in range(3)})
+    if flat and rng.random() < 0.7:
+        # the adversary: whenever a client is about to create a value file, another client first completes a whole call
+        sch = Sched(rng, clock, strategy='chase', victims=[0], chase_label='pre:fcreate')
     if store_gates(sch, rng, dc):
         res.count('schedules_with_attribute_store_gates')
     rec = Recorder(sch)
@@ -490,7 +516,9 @@ def atomicity_schedule(dc, sc, res, rng, label):
                     objs[ci] = open_index('reopen')
                 k = rng.choice(['a', 'b', 'c'])
                 op = rng.choice(['setitem', 'getitem', 'pop', 'popitem', 'setdefault', 'delitem', 'len', 'contains'])
-                v = ('c%d-%d;' % (ci, i)) * (30 if rng.random() < 0.5 else 1)
+                v = ('c%d-%d;' % (ci, i)) * (30 if flat or rng.random() < 0.5 else 1)
+                if flat and rng.random() < 0.6:
+                    op = rng.choice(['setitem', 'pop', 'delitem', 'popitem', 'setdefault'])
                 I = objs[ci]
                 if op == 'setitem':
                     rec.call(ci, op, (k, v), lambda: I.__setitem__(k, v))
